@@ -49,7 +49,8 @@ func regimeForTier(rt *rapid.T) (int, int, string) {
 
 // forceSplineSafe rewrites sizes/spacings/positioner of c so that it lies in D_S.
 func forceSplineSafe(rt *rapid.T, c *Case, _ bool) {
-	big := len(NodeIDs(c.Edges)) > 16 || len(c.Edges) > 24 // same bound as posFor
+	nn, mm := len(NodeIDs(c.Edges)), len(c.Edges)
+	big := !((nn <= 16 && mm <= 24) || (nn <= 48 && mm <= nn+3)) // same bound as posFor
 	w, h := genDim(rt, "ds_w", false), genDim(rt, "ds_h", false)
 	c.SzMode = SzFixed
 	c.Fixed = Sz{w, h}
